@@ -124,9 +124,12 @@ Definition sets_domain (st : setstore) (chunk : nat) (pols : list (bool * polset
 Definition in_domain (st : setstore) (chunk : nat) (pols : list (bool * polset)) (inbound : bool) : bool :=
   sets_domain st chunk pols
   && forallb (fun bp : bool * polset => forallb (supported_rule inbound) (dir_rules inbound (snd bp))) pols.
-(* domain of the oracle: the same, but services rules may carry a protocol and source criteria *)
+(* domain of the oracle: wider.  Services rules may carry a protocol and source criteria, and the tier may name
+   policies the policy manager never added: endpoint_mgr.go passes every policy id of the tier to GetPolicySetRules,
+   including staged policies, which policy_mgr.go never adds (the reference semantics ignores staged policies). *)
 Definition in_oracle_domain (st : setstore) (chunk : nat) (pols : list (bool * polset)) (inbound : bool) : bool :=
-  sets_domain st chunk pols
+  wf_sets st && negb (Nat.eqb chunk 0)
+  && N.ltb (N.of_nat (count_rules (tier_sets st chunk pols))) 64000
   && forallb (fun bp : bool * polset => forallb (oracle_rule inbound) (dir_rules inbound (snd bp))) pols.
 
 Definition packet_ok (p : packet) : bool :=
